@@ -20,3 +20,64 @@ pub mod keyprov {
     }
 }
 // --- END wsD C27
+
+// --- BEGIN wsB C38 (observation socket)
+pub use super::observer::{ObservableServerState, ObservableState, ProgramData};
+pub use super::server::Counter;
+pub use super::sockets::{read_json, write_json};
+// --- END wsB C38
+// --- BEGIN wsB C40 (GPSd SOCK source)
+pub use super::ntp_source::{MsgForSystem, SourceChannels};
+
+/// `SockSourceTask::spawn` exactly as `system.rs` calls it
+pub fn spawn_sock_source<C, Controller>(
+    index: ntp_proto::ClockId,
+    socket_path: std::path::PathBuf,
+    clock: C,
+    channels: SourceChannels,
+    source: ntp_proto::OneWaySource<Controller>,
+) -> tokio::task::JoinHandle<()>
+where
+    C: 'static + ntp_proto::NtpClock + Send + Sync,
+    Controller: ntp_proto::SourceController,
+{
+    super::sock_source::SockSourceTask::spawn(index, socket_path, clock, channels, source)
+}
+// --- END wsB C40
+// --- BEGIN wsB C39 (configuration loading)
+pub use super::config::{Config, ConfigError};
+
+/// the loading path of the daemon (`initialize_logging_parse_config`) and of `ntp-ctl validate`
+pub fn load_config_file(path: &std::path::Path) -> Result<Config, ConfigError> {
+    Config::from_args(Some(&path), vec![], vec![])
+}
+
+/// `Config::from_file` without the file system part
+pub fn load_config_text(text: &str) -> Result<Config, ConfigError> {
+    Ok(toml::de::from_str(text)?)
+}
+// --- END wsB C39
+
+// --- BEGIN C35/C36 (spawners, spawner task, DNS-facing config types)
+/// thin re-exports/constructors for the spawner checks (no logic)
+pub mod spawn_hook {
+    pub use super::super::config::{
+        NormalizedAddress, NtpAddress, NtsKeAddress, NtsPoolSourceConfig, PoolSourceConfig,
+        StandardSource,
+    };
+    pub use super::super::spawn::nts_pool::NtsPoolSpawner;
+    pub use super::super::spawn::pool::PoolSpawner;
+    pub use super::super::spawn::standard::StandardSpawner;
+    pub use super::super::spawn::{
+        NtpSourceCreateParameters, SockSourceCreateParameters, SourceCreateParameters,
+        SourceRemovalReason, SourceRemovedEvent, SpawnAction, SpawnEvent, Spawner, SpawnerId, SystemEvent,
+        spawner_task,
+    };
+    pub use super::super::system::{MESSAGE_BUFFER_SIZE, NETWORK_WAIT_PERIOD};
+
+    /// `NormalizedAddress::new_from_parts` (pub(crate))
+    pub fn normalized_address(server_name: &str, port: u16) -> NormalizedAddress {
+        NormalizedAddress::new_from_parts(server_name, port)
+    }
+}
+// --- END C35/C36
